@@ -26,13 +26,33 @@ RULE = (
     "object); then for every callback of the entry point (filterfunc, ff_via, ff_result, rfunc, sort, rvfunc, refunc, "
     "user_render_func) a counting run measures its K invocations and for EVERY k in 1..K the callback is armed to raise "
     "at its k-th invocation, the call is made, the snapshot must be unchanged however the call ended, and the call is "
-    "repeated with the same (disarmed) callable and must give the fault-free answer.  Graphs have 3-8 vertices (20 in "
+    "repeated with the same (disarmed) callable and must give the fault-free answer.  Besides the harness' own "
+    "exception, first/middle/last k are repeated with exception types a library may catch (StopIteration, "
+    "AttributeError, KeyError, ...) and with types outside the Exception hierarchy (KeyboardInterrupt, SystemExit, "
+    "GeneratorExit, a BaseException subclass).  Graphs have 3-8 vertices (20 in "
     "thorough) so that all k are enumerated.  Non-trivial = a fault actually propagated out of the call; distinct = "
     "distinct (graph shape, entry point, callback, k, caching)."
 )
 
 
-FAULT_KINDS = [InjectedFault, StopIteration, AttributeError, AssertionError, KeyError, IndexError, TypeError, ValueError]
+class InjectedBaseFault(BaseException):
+    """A fault outside the Exception hierarchy (as KeyboardInterrupt, SystemExit, asyncio.CancelledError are)."""
+
+
+# exceptions that `except Exception` does not see: a user interrupt or an exit request arriving inside a callback
+BASE_KINDS = [InjectedBaseFault, KeyboardInterrupt, SystemExit, GeneratorExit]
+FAULT_KINDS = [InjectedFault, StopIteration, AttributeError, AssertionError, KeyError, IndexError, TypeError, ValueError] + BASE_KINDS
+
+
+def outcome_b(fn, *a, **kw):
+    """oracles.outcome that also reports the injected non-Exception kinds (and nothing else outside Exception)."""
+    try:
+        return oracles.outcome(fn, *a, **kw)
+    except BaseException as exc:  # noqa: BLE001
+        if type(exc) in BASE_KINDS:
+            return ("exc", type(exc))
+        raise
+
 
 
 class Armed:
@@ -233,7 +253,7 @@ def floors(ctx):
     q = ctx.tier == "quick"
     f = {"evaluations": 5000 if q else 50000, "faults_injected": 3000 if q else 30000, "faults_propagated": 1000 if q else 10000,
          "fault_free_runs": 300, "faults_of_library_catchable_types": 3000,
-         "faults_propagated_with_caching_on": 2000}
+         "faults_propagated_with_caching_on": 2000, "faults_outside_the_Exception_hierarchy_propagated": 1000}
     for ep, cbs in (("neighbors", ["filterfunc"]), ("find_links", ["filterfunc"]), ("bft", ["ff_via", "ff_result"]),
                     ("ibft", ["ff_via", "ff_result"]), ("dft_recursive", ["ff_via", "ff_result"]),
                     ("idft_recursive", ["ff_via", "ff_result"]), ("dft_iterative", ["ff_via", "ff_result"]),
@@ -299,12 +319,16 @@ def run_graph(ctx, spec, cache, only=None):
                     if cache:
                         cool(g)
                     armed.arm(k, kind)
-                    out = oracles.outcome(call, cbs)
+                    out = outcome_b(call, cbs)
                     s2 = deep_snapshot(g)
                     ctx.evaluated()
                     ctx.count("faults_injected")
                     propagated = out[0] == "exc" and out[1] is InjectedFault
-                    if kind is not InjectedFault:
+                    if kind in BASE_KINDS:
+                        ctx.count("faults_outside_the_Exception_hierarchy")
+                        if out[0] == "exc" and out[1] is kind:
+                            ctx.count("faults_outside_the_Exception_hierarchy_propagated")
+                    elif kind is not InjectedFault:
                         ctx.count("faults_of_library_catchable_types")
                     if propagated:
                         ctx.count("faults_propagated")
